@@ -174,3 +174,70 @@ contract(
     ensures=["('Control' in result['attributes']) == (0x100 <= tid and tid <= 0xEFF)", "'Speed' in result['attributes']",
              "result['name'] == 'Axis'"],
     props=["C05"], max_paths=20000)
+
+# ---- template attributes (Get_Attribute_List on the template object): the four attributes of the reply, cached per instance
+CONN5 = [f"d = {LD}('10.0.0.1')", "d._session = 5", "d._target_cid = b'abcd'", "d._target_is_connected = True", "d._connection_opened = True",
+         "d._cache = {'tag_name:id': {}, 'id:struct': {}, 'handle:id': {}, 'id:udt': {}}"]
+_ATTRS = ("b'\\x04\\x00' + b'\\x04\\x00\\x00\\x00' + spec.cip_codec.le_uint(ods, 4) + b'\\x05\\x00\\x00\\x00' + spec.cip_codec.le_uint(ssize, 4) + "
+          "b'\\x02\\x00\\x00\\x00' + spec.cip_codec.le_uint(count, 2) + b'\\x01\\x00\\x00\\x00' + spec.cip_codec.le_uint(handle, 2)")
+contract(
+    id="upload.structure_makeup", func=LD + "._get_structure_makeup", call="d._get_structure_makeup(inst)",
+    bind={"inst": ["0x123", "0", "0xFFFF"], "handle": ["0x1234", "0"]},      # dictionary keys of the cache: concrete
+    params={"ods": P.int(0, 2**32 - 1), "ssize": P.int(0, 2**32 - 1), "count": P.int(0, 65535)},
+    setup=CONN5 + [f"t = spec.env.Transport([spec.msgrouter.connected_reply(0x03, 0, {_ATTRS})])", "d._sock = t"],
+    ensures=["result == {'object_definition_size': ods, 'structure_size': ssize, 'member_count': count, 'structure_handle': handle}",
+             "len(t.sent) == 1",
+             "spec.msgrouter.try_parse_request(spec.encap.try_parse_frame(t.sent[0])[3][3]) == (0x03, [('logical', 'class_id', 0x6C), "
+             "('logical', 'instance_id', inst)], b'\\x04\\x00\\x04\\x00\\x05\\x00\\x02\\x00\\x01\\x00')",
+             "d._get_structure_makeup(inst) is result and len(t.sent) == 1",          # cached: asked once per instance
+             "d._cache['handle:id'][handle] == inst"],
+    props=["C05"], max_paths=20000)
+contract(
+    id="upload.structure_makeup.refused", func=LD + "._get_structure_makeup", call="d._get_structure_makeup(inst)",
+    params={"inst": P.int(0, 0xFFFF), "sts": P.int(1, 255)},
+    setup=CONN5 + ["t = spec.env.Transport([spec.msgrouter.connected_reply(0x03, sts, b'')])", "d._sock = t"],
+    ensures=["False"], raises_only=["pycomm3.exceptions.ResponseError"], ensures_exc=["inst not in d._cache['id:struct']"], props=["C05"])
+
+# ---- one data type: attributes, template read, parse -- and the cache: a type is fetched once, later uses get the same definition
+contract(
+    id="upload.get_data_type", func=LD + "._get_data_type", call="d._get_data_type(inst, 0x8123)",
+    bind={"inst": ["0x123", "0xEFF"], "handle": ["0x1234"]},
+    params={"o1": P.int(0, 2**32 - 1), "o2": P.int(0, 2**32 - 1), "o3": P.int(0, 2**32 - 1), "bit": P.int(0, 7),
+            "n": P.int(1, 65535), "ssize": P.int(1, 2**31), "head": P.bytes(len=46)},
+    requires=["spec.encap.le(head, 8, 4) == 0"],
+    setup=CONN5 + ["ods = 30", "count = 4",
+                   "info = (spec.logix.template_member_info(0, 0xC4, o1) + spec.logix.template_member_info(0, 0xC2, o2) + "
+                   "spec.logix.template_member_info(bit, 0xC1, o2) + spec.logix.template_member_info(n, 0xC3, o3))",
+                   "data = info + b'MyUdt;nABCDEFG\\x00x\\x00ZZZZZZZZZZMyUdt1\\x00flag\\x00arr\\x00'",
+                   f"t = spec.env.Transport([spec.msgrouter.connected_reply(0x03, 0, {_ATTRS}), head + spec.logix.sub_reply(0x4c, 0, data)])",
+                   "d._sock = t"],
+    ensures=["result['name'] == 'MyUdt'", "result['attributes'] == ['x', 'flag', 'arr']",
+             "result['template'] == {'object_definition_size': 30, 'structure_size': ssize, 'member_count': 4, 'structure_handle': handle}",
+             "result['internal_tags']['arr']['array'] == n and result['internal_tags']['flag']['bit'] == bit",
+             "len(t.sent) == 2", "d._data_types['MyUdt'] is result",
+             "d._get_data_type(inst, 0x8123) is result and len(t.sent) == 2"],
+    props=["C05"], max_paths=20000)
+
+# ---- get_tag_list: controller scope, one program, or everything ('*' = controller tags, then every program found, in order)
+_FAKE = ["ctrl = [{'tag_name': 'a', 'k': 1}, {'tag_name': 'b', 'k': 2}]", "p1 = [{'tag_name': 'Program:P1.x', 'k': 3}]",
+         "p2 = [{'tag_name': 'Program:P2.x', 'k': 4}, {'tag_name': 'Program:P2.y', 'k': 5}]", "calls = []",
+         "def fake(program=None):\n    calls.append(program)\n    if program is None:\n        d._info['programs'] = {'P1': {}, 'P2': {}}\n        return list(ctrl)\n"
+         "    return list(p1 if program == 'P1' else p2)"]
+for _prog, _expect, _calls in (("None", "ctrl", "[None]"), ("'*'", "ctrl + p1 + p2", "[None, 'P1', 'P2']"), ("'P2'", "p2", "['P2']")):
+    for _cache in (True, False):
+        contract(
+            id=f"upload.get_tag_list.{_prog.strip(chr(39))}.{'cache' if _cache else 'nocache'}", func=LD + ".get_tag_list",
+            call=f"d.get_tag_list({_prog}, {_cache})",
+            setup=[f"d = {LD}('10.0.0.1')", "d._session = 5", "d._target_cid = b'abcd'", "d._target_is_connected = True", "d._connection_opened = True",
+                   "d._tags = {'old': {'tag_name': 'old'}}"] + _FAKE + ["d._get_tag_list = fake"],
+            ensures=[f"result == {_expect}", f"calls == {_calls}", "d._cache is None",
+                     (f"d._tags == {{t['tag_name']: t for t in {_expect}}}" if _cache else "d._tags == {'old': {'tag_name': 'old'}}")],
+            props=["C05"])
+# the tag list of one scope = the user-visible part of the symbol instances of that scope
+contract(
+    id="upload.get_tag_list.scope", func=LD + "._get_tag_list", call="d._get_tag_list(program)",
+    bind={"program": ["None", "'Main'"]},
+    setup=[f"d = {LD}('10.0.0.1')", "raw = [{'tag_name': 'x'}]", "seen = []",
+           "def svc(p=None):\n    seen.append(('svc', p))\n    return raw", "def iso(tags, p=None):\n    seen.append(('iso', tags is raw, p))\n    return ['ok']",
+           "d._get_instance_attribute_list_service = svc", "d._isolate_user_tags = iso"],
+    ensures=["result == ['ok']", "seen == [('svc', program), ('iso', True, program)]"], props=["C05"])
